@@ -80,7 +80,7 @@ func slice(v any, start, stop int) any {
 
 		idx := 0
 		for i := start; i < stop; i++ {
-			_, sz := utf8.DecodeRuneInString(s)
+			_, sz := utf8.DecodeRuneInString(s[idx:])
 			idx += sz
 		}
 
